@@ -111,7 +111,7 @@ PROPS["C08"] = {
     "units": ["db"],
     "probes": {"db": ["db::Reader::read_build", "db::Writer::write_build", "db::Writer::ensure_id"]},
     "level": "proof",
-    "assumptions": DB_ASSUME + ["'hash is over names, mtimes and text only' is part of unit dirty (C02/C03)", "the whole-log round trip lemma (decode(encode(R)) == R) is stated per record: write_build's bytes are enc_build(ids_of(outs), ids_of(deps), hash) and read_build decodes exactly these fields"],
+    "assumptions": DB_ASSUME + ["'hash is over names, mtimes and text only' is part of unit dirty (C02/C03)", "round trip per record: write_build's bytes are enc_build(ids_of(outs), ids_of(deps), hash), read_build decodes id_at / dec_u16 / dec_u64 of the bytes, and ds::lemma_build_roundtrip proves (bit-vector + sequence lemmas) that these decoders applied to enc_build(..) followed by anything give back exactly the encoded output ids, dependency ids and hash and leave the rest; the whole-log statement (a sequence of such records) is wf_stream + read_file"],
 }
 
 DIRTY_ASSUME = [
